@@ -213,7 +213,7 @@ Definition run1 : list label := [
   LHigherTerm 2 1; LHandleRV 2 1 1 0 0;
   LBecomeLeader 1;
   LPropose 1 42;
-  LSendAE 1 0 2;
+  LSendAE 1 0 2 0;
   LHandleAE 2 1 1 0 0 [e1; e2] 0;
   LAdvanceCommit 1 2;
   LSendHB 1 2 2; LHandleHB 2 1 1 2 ].
@@ -224,10 +224,10 @@ Definition run2 : list label := [
   LTimeout 3;
   LHigherTerm 2 2; LHandleRV 2 2 3 2 1;
   LBecomeLeader 3;
-  LSendAE 3 2 1;
+  LSendAE 3 2 1 0;
   LHandleAE 2 2 3 2 1 [noop 2] 0;
   LAdvanceCommit 3 3;
-  LSendAE 3 3 0;
+  LSendAE 3 3 0 3;
   LHigherTerm 1 2; LHandleAE 1 2 3 2 1 [noop 2] 0; LHandleAE 1 2 3 3 2 [] 3 ].
 
 Definition obs (o : option net) (i : id) : option (nat * role_t * list entry * nat) :=
